@@ -155,6 +155,107 @@ def gen_netstring(rnd, tier, cases):
         cases.append(ns_case(-1, [], rand_chunks(rnd, s, 5), 'ns-random-bytes', declare=False))
 
 
+# ---- the buffered reader up to the END of the stream (the callers' loop)
+REMAINDERS = [b'', b'1', b'12', b'123456789', b'5:', b'5:he', b'5:hello', b'0:', b'\n', b'\r\n', b' ', b'abc', b'\x00', b'abcdefghijklmnopq',
+              b'7', b'10:012345678', b'10:0123456789',
+              # malformed: the loop must end with the reader's exception
+              b'3:abcd', b':', b'01:', b'1234567890:', b'abcdefghijklmnopqr', b'5:hello;', b'00', b'1:a;']
+
+
+def eof_line(max_, mode, chunks):
+    return 'ns_eof max=%d mode=%s %s' % (max_, mode, ','.join(hx(c) for c in chunks))
+
+
+def with_empty_chunks(rnd, chunks):
+    out = []
+    for c in chunks:
+        if rnd.random() < 0.15:
+            out.append(b'')
+        out.append(c)
+    return out
+
+
+def gen_eof(rnd, tier, cases):
+    big = tier != 'quick'
+    seqs = [[b'hi'], [b''], [b'a', b''], [b'hi', b'abc'], [b'0123456789'], [b'', b'', b'x'], [b'1:a,'], [b':', b','], [b'hello world!']]
+    # every frame sequence ended at EVERY offset, on every kind of stream
+    for fr in seqs:
+        s = b''.join(nsw(p) for p in fr)
+        for mode in ('chunk', 'stdio', 'file'):
+            lines = []
+            for cut in range(len(s) + 1):
+                t = s[:cut]
+                if mode == 'chunk':
+                    how = rnd.random()
+                    ch = [t] if how < 0.3 else ([t[j:j + 1] for j in range(len(t))] or [b'']) if how < 0.6 else rand_chunks(rnd, t, 3)
+                    ch = with_empty_chunks(rnd, ch)
+                else:
+                    ch = [t]
+                lines.append(eof_line(-1, mode, ch))
+            cases.append({'lines': lines, 'tags': {'family': 'ns-eof-every-offset'}})
+    # complete frames followed by every kind of remainder
+    for rem in REMAINDERS:
+        lines = []
+        for fr in ([], [b'ok'], [b'', b'xyz']):
+            s = b''.join(nsw(p) for p in fr) + rem
+            lines.append(eof_line(-1, 'chunk', [s] if s else [b'']))
+            lines.append(eof_line(-1, 'chunk', with_empty_chunks(rnd, rand_chunks(rnd, s, 2))))
+            lines.append(eof_line(-1, rnd.choice(('stdio', 'file')), [s]))
+        cases.append({'lines': lines, 'tags': {'family': 'ns-eof-remainder'}})
+    # every chunking (with and without an empty fill in front of the end) of short truncated streams
+    for s in (b'1:a,1', b'1:a,2:b', b'0:,0:', b'2:ab', b'1:a,\n', b'1:a;', b'01:a,'):
+        lines = []
+        for ch in chunkings(s):
+            lines.append(eof_line(-1, 'chunk', ch))
+            if rnd.random() < 0.25:
+                lines.append(eof_line(-1, 'chunk', ch + [b'']))
+        for i in range(0, len(lines), 16):
+            cases.append({'lines': lines[i:i + 16], 'tags': {'family': 'ns-eof-chunking-exhaustive'}})
+    # hostile streams that simply end
+    for i in range(0, len(HOSTILE_NS), 8):
+        cases.append({'lines': [eof_line(-1, rnd.choice(('chunk', 'stdio', 'file')), [h]) for h in HOSTILE_NS[i:i + 8]] +
+                               [eof_line(4, 'chunk', rand_chunks(rnd, b'1:a,' + h, 3)) for h in HOSTILE_NS[i:i + 8]],
+                      'tags': {'family': 'ns-eof-hostile'}})
+    # the limit together with the end of the stream (data_length = len + 1 is compared)
+    lines = []
+    for mx in (0, 1, 2, 5):
+        for n in (mx - 1, mx, mx + 1):
+            if n >= 0:
+                s = nsw(b'y' * n)
+                for cut in (len(s), len(s) - 1, max(0, len(s) - n - 1)):
+                    lines.append(eof_line(mx, rnd.choice(('chunk', 'file')), [b'1:a,'[:4 if mx >= 2 else 0] + s[:cut]]))
+    cases.append({'lines': lines, 'tags': {'family': 'ns-eof-limit'}})
+    # random frame sequences, random cut, random remainder, random chunking
+    for i in range(240 if big else 60):
+        lines = []
+        for _ in range(5):
+            fr = [rand_payload(rnd) for _ in range(rnd.randint(0, 4))]
+            s = b''.join(nsw(p) for p in fr)
+            k = rnd.random()
+            if k < 0.5 and s:
+                s = s[:rnd.randrange(len(s) + 1)]
+            elif k < 0.75:
+                s += rnd.choice(REMAINDERS)
+            elif k < 0.9:
+                s = mutate(rnd, s) if s else s
+            mode = rnd.choice(('chunk', 'chunk', 'stdio', 'file'))
+            ch = with_empty_chunks(rnd, rand_chunks(rnd, s, rnd.choice((1, 3, 10, 100)))) if mode == 'chunk' else [s]
+            lines.append(eof_line(rnd.choice((-1, -1, -1, 12, 101)), mode, ch))
+        cases.append({'lines': lines, 'tags': {'family': 'ns-eof-random'}})
+    # frames larger than one fill (4 KiB reads, 64 KiB bursts) cut inside the payload / before the terminator / after it
+    for n in (5000, 70000) + ((140000,) if big else ()):
+        p = (bytes(rnd.randrange(256) for _ in range(61)) * (n // 61 + 1))[:n]
+        s = nsw(b'first') + nsw(p)
+        lines = [eof_line(-1, mode, [s[:cut]]) for mode, cut in (('file', len(s)), ('file', len(s) - 1), ('stdio', len(s) - n // 2), ('file', 4096 + 8), ('chunk', len(s) - 2))]
+        cases.append({'lines': lines, 'tags': {'family': 'ns-eof-large'}})
+    # the production loop itself: ConfigObject::RestoreObjects on a state file that ends anywhere (bounded: forked child, CPU limit)
+    rec = b'{"type":"VerifNoSuchType","name":"x","update":{}}'
+    good = nsw(rec) + nsw(rec)
+    conts = [good, good[:-1], good[:len(good) // 2], good[:len(nsw(rec)) + 1], good + b'\n', good + b'7', b'', b'\n', good + b'3:abcd', good[:3]]
+    for i in range(0, len(conts), 5):
+        cases.append({'lines': ['ns_restore ' + hx(c) for c in conts[i:i + 5]], 'tags': {'family': 'ns-eof-restoreobjects'}})
+
+
 def nss_case(max_, chunks, fam, mode=None, rnd=None):
     modes = [mode] if mode else ['sync', 'co']
     lines = ['nss_read max=%d mode=%s %s' % (max_, m, ','.join(hx(c) for c in chunks)) for m in modes]
@@ -393,6 +494,7 @@ def generate(seed, tier):
     rnd = random.Random(seed)
     cases = []
     gen_netstring(rnd, tier, cases)
+    gen_eof(rnd, tier, cases)
     gen_stream(rnd, tier, cases)
     gen_json_rt(rnd, tier, cases)
     gen_json_hostile(rnd, tier, cases)
@@ -409,7 +511,7 @@ def classify(case, detail, impl_lines):
         if m and int(m.group(1)) >= 2000 and 'CRASH' in detail:
             return 'deep-nesting-stack-overflow'
         return 'crash'
-    for k, v in (('ns-chunking', 'chunking'), ('ns-stream allocation', 'limit'), ('ns-stream', 'stream-framing'), ('ns-buffered', 'buffered-framing'),
+    for k, v in (('ns-eof', 'eof-termination'), ('ns-chunking', 'chunking'), ('ns-stream allocation', 'limit'), ('ns-stream', 'stream-framing'), ('ns-buffered', 'buffered-framing'),
                  ('ns-write', 'writer'), ('json-roundtrip', 'json-roundtrip'), ('json-decode', 'json-decode'), ('json-message', 'json-decode'),
                  ('json-deep', 'json-nesting')):
         if detail.startswith(k):
